@@ -299,32 +299,41 @@ class RegexCompiler:
             self._patch(jump_idx, Op.JUMP, end_offset)
 
     def _compile_quantifier(self, node: Quantifier):
-        """Compile quantifier with ReDoS protection."""
-        min_count = node.min
-        max_count = node.max
+        """Compile a quantifier the way ECMAScript's RepeatMatcher works:
+
+        - the first `min` iterations are mandatory (and may match the empty string);
+        - each further iteration is optional, starts by resetting the captures of
+          the groups inside the body, and is rejected if it matched the empty
+          string (this is also what stops loops that cannot advance);
+        - skipping an optional iteration leaves the captures of the previous one.
+        """
+        body = node.body
         greedy = node.greedy
+        capture_groups = self._find_capture_groups(body)
+        can_be_empty = self._needs_advance_check(body)
 
-        # Check if we need zero-advance detection
-        need_advance_check = self._needs_advance_check(node.body)
+        for _ in range(node.min):
+            self._emit_capture_reset(capture_groups)
+            self._compile_node(body)
 
-        # Handle specific cases
-        if min_count == 0 and max_count == 1:
-            # ? quantifier
-            self._compile_optional(node.body, greedy)
-        elif min_count == 0 and max_count == -1:
-            # * quantifier
-            self._compile_star(node.body, greedy, need_advance_check)
-        elif min_count == 1 and max_count == -1:
-            # + quantifier
-            self._compile_plus(node.body, greedy, need_advance_check)
-        elif max_count == -1:
-            # {n,} quantifier
-            self._compile_at_least(node.body, min_count, greedy, need_advance_check)
-        else:
-            # {n,m} quantifier
-            self._compile_range(
-                node.body, min_count, max_count, greedy, need_advance_check
-            )
+        if node.max == -1:
+            self._compile_star(body, greedy, can_be_empty)
+            return
+
+        # Optional iterations: all of them give up to the same exit
+        split_op = Op.SPLIT_FIRST if greedy else Op.SPLIT_NEXT
+        exits = []
+        for _ in range(node.max - node.min):
+            if can_be_empty:
+                reg = self._allocate_register()
+                self._emit(Op.SET_POS, reg)
+            exits.append(self._emit(split_op, 0))
+            self._emit_capture_reset(capture_groups)
+            self._compile_node(body)
+            if can_be_empty:
+                self._emit(Op.CHECK_ADVANCE, reg)
+        for split_idx in exits:
+            self._patch(split_idx, split_op, self._current_offset())
 
     def _needs_advance_check(self, node: Node) -> bool:
         """
@@ -381,57 +390,6 @@ class RegexCompiler:
             max_group = max(groups)
             self._emit(Op.SAVE_RESET, min_group, max_group)
 
-    def _compile_optional(self, body: Node, greedy: bool):
-        """Compile ? quantifier."""
-        # Find capture groups in body to reset when skipping
-        capture_groups = self._find_capture_groups(body)
-
-        # Check if body might match zero-width (e.g., lookaheads)
-        # If so, we need to reset captures if the optional group matches zero-width
-        # because per ECMAScript spec, zero-width optional matches should have
-        # undefined captures (equivalent to skipping the group)
-        need_zero_width_reset = capture_groups and self._needs_advance_check(body)
-
-        if greedy:
-            # Try match first, skip as backup
-            # Reset captures first (they should be undefined if we backtrack to skip)
-            self._emit_capture_reset(capture_groups)
-
-            if need_zero_width_reset:
-                # Save position to check if body advanced
-                reg = self._allocate_register()
-                self._emit(Op.SET_POS, reg)
-
-            split_idx = self._emit(Op.SPLIT_FIRST, 0)
-            self._compile_node(body)
-
-            if need_zero_width_reset:
-                # Reset captures if position didn't advance
-                min_group = min(capture_groups)
-                max_group = max(capture_groups)
-                self._emit(Op.RESET_IF_NO_ADV, reg, min_group, max_group)
-
-            self._patch(split_idx, Op.SPLIT_FIRST, self._current_offset())
-        else:
-            # Try skip first, match as backup
-            split_idx = self._emit(Op.SPLIT_NEXT, 0)
-
-            if need_zero_width_reset:
-                # Save position to check if body advanced
-                reg = self._allocate_register()
-                self._emit(Op.SET_POS, reg)
-
-            self._emit_capture_reset(capture_groups)
-            self._compile_node(body)
-
-            if need_zero_width_reset:
-                # Reset captures if position didn't advance
-                min_group = min(capture_groups)
-                max_group = max(capture_groups)
-                self._emit(Op.RESET_IF_NO_ADV, reg, min_group, max_group)
-
-            self._patch(split_idx, Op.SPLIT_NEXT, self._current_offset())
-
     def _compile_star(self, body: Node, greedy: bool, need_advance_check: bool):
         """Compile * quantifier."""
         # Find capture groups in body to reset at each iteration
@@ -472,76 +430,6 @@ class RegexCompiler:
                 self._patch(split_idx, Op.SPLIT_FIRST, self._current_offset())
             else:
                 self._patch(split_idx, Op.SPLIT_NEXT, self._current_offset())
-
-    def _compile_plus(self, body: Node, greedy: bool, need_advance_check: bool):
-        """Compile + quantifier."""
-        # Find capture groups in body to reset at each iteration
-        capture_groups = self._find_capture_groups(body)
-
-        if need_advance_check:
-            reg = self._allocate_register()
-            loop_start = self._current_offset()
-
-            self._emit_capture_reset(capture_groups)
-            self._emit(Op.SET_POS, reg)
-            self._compile_node(body)
-            # CHECK_ADVANCE before SPLIT so that if body took a non-advancing path
-            # (like empty alternative), we backtrack to body alternatives first,
-            # not directly to the loop exit
-            self._emit(Op.CHECK_ADVANCE, reg)
-
-            if greedy:
-                split_idx = self._emit(Op.SPLIT_FIRST, 0)
-                self._emit(Op.JUMP, loop_start)
-                self._patch(split_idx, Op.SPLIT_FIRST, self._current_offset())
-            else:
-                split_idx = self._emit(Op.SPLIT_NEXT, 0)
-                self._emit(Op.JUMP, loop_start)
-                self._patch(split_idx, Op.SPLIT_NEXT, self._current_offset())
-        else:
-            loop_start = self._current_offset()
-            self._emit_capture_reset(capture_groups)
-            self._compile_node(body)
-
-            if greedy:
-                split_idx = self._emit(Op.SPLIT_FIRST, 0)
-            else:
-                split_idx = self._emit(Op.SPLIT_NEXT, 0)
-
-            self._emit(Op.JUMP, loop_start)
-
-            if greedy:
-                self._patch(split_idx, Op.SPLIT_FIRST, self._current_offset())
-            else:
-                self._patch(split_idx, Op.SPLIT_NEXT, self._current_offset())
-
-    def _compile_at_least(
-        self, body: Node, min_count: int, greedy: bool, need_advance_check: bool
-    ):
-        """Compile {n,} quantifier."""
-        # Emit body min_count times
-        for _ in range(min_count):
-            self._compile_node(body)
-
-        # Then emit * for the rest
-        self._compile_star(body, greedy, need_advance_check)
-
-    def _compile_range(
-        self,
-        body: Node,
-        min_count: int,
-        max_count: int,
-        greedy: bool,
-        need_advance_check: bool,
-    ):
-        """Compile {n,m} quantifier."""
-        # Emit body min_count times (required)
-        for _ in range(min_count):
-            self._compile_node(body)
-
-        # Emit body (max_count - min_count) times (optional)
-        for _ in range(max_count - min_count):
-            self._compile_optional(body, greedy)
 
     def _allocate_register(self) -> int:
         """Allocate a register for position tracking."""
